@@ -72,6 +72,7 @@ structure DState where
   reverts : Nat := 0
   wfOps : Nat := 0
   illOps : Nat := 0
+  wfDisagree : Nat := 0            -- blocks on which the two formulations of well-formedness differ
   taintedHists : Nat := 0
   batches : Nat := 0
   usages : Nat := 0
@@ -251,7 +252,7 @@ def step (d : DState) (l : Line) : DState × List Verdict :=
   if l.op == "reset" then
     match getNat l.args "rb", getNat l.args "buf" with
     | some rb, some buf =>
-      ({ focus := d.focus, rb, buf, hists := d.hists + 1, applies := d.applies, reverts := d.reverts, wfOps := d.wfOps, illOps := d.illOps,
+      ({ focus := d.focus, rb, buf, hists := d.hists + 1, applies := d.applies, reverts := d.reverts, wfOps := d.wfOps, illOps := d.illOps, wfDisagree := d.wfDisagree,
          taintedHists := d.taintedHists + (if d.tainted then 1 else 0), batches := d.batches, usages := d.usages,
          actions := d.actions, twins := d.twins, rescans := d.rescans, faultsAgreed := d.faultsAgreed, cells := d.cells,
          acctOps := d.acctOps, renewals := d.renewals }, [])
@@ -297,26 +298,35 @@ def step (d : DState) (l : Line) : DState × List Verdict :=
       let specBelow := headD (d.spec.drop 1) {}
       let wf : Bool :=
         if d.rescan then true
-        else if isApply then h == d.stack.length + 1 && wfApplyR specHead ch
+        else if isApply then h == d.stack.length + 1 && wfApplyP specHead ch
         else match d.stack with
-          | (h', ch') :: _ => h == h' && wfRevert specBelow ch' ch
+          | (h', ch') :: _ => h == h' && wfRevertP specBelow ch' ch
+          | [] => false
+      -- the list-level formulation of the same guarantee (Model/Chain.lean `wfApplyR`/`wfRevert`) must agree
+      let wfL : Bool :=
+        if d.rescan then true
+        else if isApply then h == d.stack.length + 1 && wfApplyR specHead ch && (ch.rev2.map (·.1)).Nodup
+        else match d.stack with
+          | (h', ch') :: _ => h == h' && wfRevert specBelow ch' ch && listsNodupB ch && idsExist specBelow ch
           | [] => false
       let r := if isApply then applyBlock codeTable d.rb h ch d.m else revertContracts codeTable h ch d.m
       let cls := faultClass r
       -- internal consistency: the global model and the per-contract semantics the C01 theorems are
-      -- stated about must agree on every contract whenever the block touches each contract at most once
+      -- stated about must agree on every contract whenever no list of the block mentions a contract twice
       let proj : List Verdict :=
         match r with
         | .ok m' =>
-          if (ids1 ch).Nodup && (ids2 ch).Nodup then
+          if ch.form1.Nodup && (ch.rev1.map (·.1)).Nodup && ch.succ1.Nodup && ch.fail1.Nodup && (ch.form2.map (·.1)).Nodup &&
+             (ch.rev2.map (·.1)).Nodup && ch.succ2.Nodup && ch.renew2.Nodup && ch.fail2.Nodup then
             (d.m.cs.findSome? fun c =>
-              let e := eventFor (!isApply) c.ver c.id ch
+              let e := eventsFor c.ver c.id ch
               let pc := stepH codeTable d.rb c (if isApply then .apply h e else .revert h e)
               match pc, findC c.ver c.id m'.cs with
               | .ok c1, some c2 => if c1 == c2 then none else some [Verdict.mismatch "c01/model_projection" s!"c{c.id}" "global!=per-contract"]
               | _, _ => some [Verdict.mismatch "c01/model_projection" s!"c{c.id}" "per-contract fault"]).getD []
           else []
         | .error _ => []
+      let d := { d with wfDisagree := d.wfDisagree + (if wf != wfL then 1 else 0) }
       let d := { d with applies := d.applies + (if isApply then 1 else 0), reverts := d.reverts + (if isApply then 0 else 1),
                         wfOps := d.wfOps + (if wf then 1 else 0), illOps := d.illOps + (if wf then 0 else 1) }
       -- property monitors first
@@ -517,6 +527,6 @@ def step (d : DState) (l : Line) : DState × List Verdict :=
   else (d, [.badline "unknown op"])
 
 def stats (d : DState) : String :=
-  s!"hists={d.hists} applies={d.applies} reverts={d.reverts} wf_ops={d.wfOps} ill_ops={d.illOps} batches={d.batches} usages={d.usages} actions={d.actions} acct_ops={d.acctOps} renewals={d.renewals} twins={d.twins} rescans={d.rescans} faults_agreed={d.faultsAgreed}"
+  s!"hists={d.hists} applies={d.applies} reverts={d.reverts} wf_ops={d.wfOps} ill_ops={d.illOps} wf_disagree={d.wfDisagree} batches={d.batches} usages={d.usages} actions={d.actions} acct_ops={d.acctOps} renewals={d.renewals} twins={d.twins} rescans={d.rescans} faults_agreed={d.faultsAgreed}"
 
 end Hostd.Drive.Chain
